@@ -17,7 +17,7 @@ ID = "C17"
 LEVEL = "fault_enumeration"
 ENGINE = "simdisk"
 
-TIERS = {"quick": {"runs": 600, "budget": 60.0, "cap": 120.0},
+TIERS = {"quick": {"runs": 480, "budget": 60.0, "cap": 120.0},
          "thorough": {"runs": 100000, "budget": 900.0, "cap": 300.0}}
 
 
@@ -28,6 +28,23 @@ def _pick(rng, seq, weights=None):
 
 
 def gen_case(rng, tier="quick"):
+    if rng.random() < 0.15:
+        # the file object driven directly, in an arbitrary order of calls
+        n = rng.randrange(1, 7)
+        ops = []
+        for _ in range(rng.randrange(2, 14)):
+            # (compute_caps() is exercised by the file-backed PT-TEMPO
+            # workloads; on arbitrary hand-made tensors it can fail half way
+            # and leave a never-written slot, a state nobody defines)
+            k = _pick(rng, ["mpo", "cap", "name", "description"],
+                      [6, 3, 1, 1])
+            ops.append([k, rng.randrange(n + 1), rng.randrange(1 << 20)])
+        case = {"kind": "fdirect", "n": n, "d": 2,
+                "chi": rng.randrange(1, 5), "dt": _pick(rng, [None, 0.1]),
+                "ops": ops, "anon": rng.random() < 0.3,
+                "overwrite": rng.random() < 0.3, "preexisting": False,
+                "torn_per_write": 1}
+        return case
     if rng.random() < 0.65:
         big = rng.random() < (0.08 if tier == "quick" else 0.15)
         case = {
@@ -66,6 +83,11 @@ def gen_case(rng, tier="quick"):
         }
         if case["anon"]:
             case["preexisting"] = False
+        if case["steps"] > 8:
+            # long runs are about the number of write operations, not about
+            # bond dimensions: keep them cheap
+            case["epsrel"] = 1e-4
+            case["dkmax"] = _pick(rng, [2, 3])
     case["torn_per_write"] = _pick(rng, [1, 2, 4])
     return case
 
@@ -118,6 +140,22 @@ def build_simple_pt(case):
     return pt
 
 
+def _maybe(x):
+    return None if x is None else np.array(x)
+
+
+RAISES = "<<raises>>"
+
+
+def _try(fn):
+    """Value of fn(), or RAISES (reading a never-written slot of a file
+    process tensor raises; then there is nothing to compare)."""
+    try:
+        return _maybe(fn())
+    except Exception:  # noqa: BLE001
+        return RAISES
+
+
 def snapshot(pt):
     """Everything observable of a process tensor, as plain numpy data."""
     n = len(pt)
@@ -128,14 +166,13 @@ def snapshot(pt):
         else np.array(pt.transform_in),
         "transform_out": None if pt.transform_out is None
         else np.array(pt.transform_out),
-        "mpo": [np.array(pt.get_mpo_tensor(k, transformed=False))
+        "mpo": [_try(lambda k=k: pt.get_mpo_tensor(k, transformed=False))
                 for k in range(n)],
         "caps": [],
     }
     for k in range(n + 1):
-        c = pt.get_cap_tensor(k)
-        snap["caps"].append(None if c is None else np.array(c))
-    snap["initial"] = pt.get_initial_tensor()
+        snap["caps"].append(_try(lambda k=k: pt.get_cap_tensor(k)))
+    snap["initial"] = _try(pt.get_initial_tensor)
     return snap
 
 
@@ -189,15 +226,20 @@ def observe(q, ref, consumer=None):
     obs("transform_in", lambda: q.transform_in, ref["transform_in"], _same)
     obs("transform_out", lambda: q.transform_out, ref["transform_out"], _same)
     for k in range(ref["len"]):
-        obs("mpo[%d]" % k,
-            lambda k=k: q.get_mpo_tensor(k, transformed=False),
-            ref["mpo"][k], _same_mpo)
+        if ref["mpo"][k] is not RAISES:
+            obs("mpo[%d]" % k,
+                lambda k=k: q.get_mpo_tensor(k, transformed=False),
+                ref["mpo"][k], _same_mpo)
     for k in range(ref["len"] + 1):
-        obs("cap[%d]" % k, lambda k=k: q.get_cap_tensor(k),
-            ref["caps"][k], _same)
-    want_bd = [t.shape[0] for t in ref["mpo"]] + [ref["mpo"][-1].shape[1]]
-    obs("bond_dimensions", lambda: list(q.get_bond_dimensions()), want_bd,
-        lambda g, w: [int(x) for x in g] == [int(x) for x in w])
+        if ref["caps"][k] is not RAISES:
+            obs("cap[%d]" % k, lambda k=k: q.get_cap_tensor(k),
+                ref["caps"][k], _same)
+    if ref["mpo"] and all(t is not None and t is not RAISES
+                          for t in ref["mpo"]):
+        want_bd = [t.shape[0] for t in ref["mpo"]] + [
+            ref["mpo"][-1].shape[1]]
+        obs("bond_dimensions", lambda: list(q.get_bond_dimensions()),
+            want_bd, lambda g, w: [int(x) for x in g] == [int(x) for x in w])
     if consumer is not None:
         obs("consumer", lambda: consumer(q), consumer.reference,
             lambda g, w: np.shape(g) == np.shape(w)
@@ -254,7 +296,48 @@ def run_workload(case, disk):
         return r
     ptm._set_data_and_shape = marking_set
     try:
-        if case["kind"] == "export":
+        if case["kind"] == "fdirect":
+            rngs = np.random.default_rng(7)
+            fpt = ptm.FileProcessTensor(
+                mode="overwrite" if case["overwrite"] else "write",
+                filename=None if case["anon"] else name,
+                hilbert_space_dimension=case["d"], dt=case["dt"])
+            name = fpt.filename
+            disk.mark("created")
+            d, chi = case["d"], case["chi"]
+            have = 0
+            caps_have = 0
+            for k, idx, seed in case["ops"]:
+                r = np.random.default_rng(seed)
+                if k == "mpo":
+                    step = min(idx, have)       # contiguous: append or redo
+                    t = r.normal(size=(chi, chi, d * d, d * d)) + 0j
+                    fpt.set_mpo_tensor(step, t)
+                    have = max(have, step + 1)
+                elif k == "cap":
+                    # contiguous as well: a never-written slot below a
+                    # written one is not a state the library defines
+                    cstep = min(idx, caps_have)
+                    fpt.set_cap_tensor(cstep, r.normal(size=chi) + 0j)
+                    caps_have = max(caps_have, cstep + 1)
+                elif k == "name":
+                    fpt.name = "n%d" % seed
+                elif k == "description":
+                    fpt.description = "d%d" % seed
+                elif k == "compute_caps" and have > 0:
+                    try:
+                        fpt.compute_caps()
+                        caps_have = max(caps_have, have + 1)
+                    except Exception:  # noqa: BLE001 - not every hand-made
+                        pass           # tensor sequence can be capped
+            if have == 0:
+                fpt.set_mpo_tensor(0, np.ones((chi, chi, d * d, d * d)) + 0j)
+            disk.mark("before_close")
+            ref = snapshot(fpt)
+            ref_pt = None
+            fpt.close()
+            del rngs
+        elif case["kind"] == "export":
             pt = build_simple_pt(case)
             overwrite = case["overwrite"] or case.get("preexisting", False)
             pt.export(name, overwrite=overwrite)
@@ -317,7 +400,10 @@ def run_case(case, dec):
     consumer = None
     try:
         final_q, _, _ = open_image(disk.files[name], name, "simple")
-        if final_q is not None and ref["caps"][0] is not None:
+        if final_q is not None and ref["caps"][0] is not None \
+                and ref["caps"][0] is not RAISES \
+                and all(c is not RAISES for c in ref["caps"]) \
+                and all(t is not RAISES for t in ref["mpo"]):
             consumer = Consumer(final_q, ref["hs_dim"], ref["dt"])
             if consumer.reference is None:
                 consumer = None
